@@ -486,6 +486,43 @@ pub fn check_execution(p: &Prepared, out: &Outcome) -> Quiescent {
             }
         }
     }
+    // ---- C12 (under concurrency): every group request reports exactly the matching used caches; with no
+    // concurrent store the matching caches are empty afterwards
+    let stores_in_threads = d.threads.iter().flatten().any(|o| matches!(o, TOp::Call { .. }));
+    for e in &events {
+        let want: Option<usize> = match &e.op {
+            TOp::ByTag(x) => Some(p.funcs.iter().filter(|f| f.flavour != Flavour::Thread && f.tags.contains(&x.as_str())).count()),
+            TOp::ByEvent(x) => Some(p.funcs.iter().filter(|f| f.flavour != Flavour::Thread && f.events.contains(&x.as_str())).count()),
+            TOp::ByDep(x) => Some(p.funcs.iter().filter(|f| f.flavour != Flavour::Thread && f.deps.contains(&x.as_str())).count()),
+            TOp::InvCache { f } => Some(usize::from(func(*f).has_meta())),
+            _ => None,
+        };
+        if let Some(w) = want {
+            let got = match e.result.as_str() {
+                "true" => 1,
+                "false" => 0,
+                x => x.parse::<usize>().unwrap_or(usize::MAX),
+            };
+            if got != w {
+                fs.push(TFinding { property: "C12", monitor: format!("{flav}/wrong-count-under-concurrency/{}", e.op.kind()), detail: format!("thread {} {} returned {}, {w} used caches match", e.thread, e.op.render(), e.result) });
+            }
+            if w > 0 && !stores_in_threads {
+                for f in p.funcs.iter().filter(|f| f.flavour != Flavour::Thread) {
+                    let matches = match &e.op {
+                        TOp::ByTag(x) => f.tags.contains(&x.as_str()),
+                        TOp::ByEvent(x) => f.events.contains(&x.as_str()),
+                        TOp::ByDep(x) => f.deps.contains(&x.as_str()),
+                        TOp::InvCache { f: ff } => *ff == f.id,
+                        _ => false,
+                    };
+                    let left = l1::list_keys(f.name).unwrap_or_default();
+                    if matches && !left.is_empty() {
+                        fs.push(TFinding { property: "C12", monitor: format!("{flav}/matching-cache-not-emptied-under-concurrency/{}", e.op.kind()), detail: format!("{} still holds {:?} after every thread returned", f.fn_name, left) });
+                    }
+                }
+            }
+        }
+    }
     // ---- C18: structure at quiescence, then a sequential probe
     for f in &p.funcs {
         if f.flavour == Flavour::Thread {
@@ -829,6 +866,30 @@ pub fn drivers_for(property: &str, thorough: bool) -> Vec<Driver> {
                             }
                         }
                     }
+                }
+            }
+        }
+        "C12" => {
+            // group invalidations racing with each other and with calls: counts stay exact, matching caches end up empty
+            for fl in [Flavour::Global, Flavour::Async] {
+                for f in conc(fl).into_iter().filter(|f| f.has_meta() && !f.deps.is_empty() && matches!((f.pol(), f.limit), (Pol::Lru, Some(1)) | (Pol::Fifo, None) | (Pol::Fifo, Some(2)))) {
+                    let reqs: Vec<(&str, TOp)> = vec![
+                        ("by_tag", TOp::ByTag("t".into())),
+                        ("by_event", TOp::ByEvent("e".into())),
+                        ("by_dep", TOp::ByDep("d".into())),
+                        ("invalidate_cache", TOp::InvCache { f: f.id }),
+                    ];
+                    for (an, a) in &reqs {
+                        for (bn, b) in &reqs {
+                            push(format!("{}:{}~{}", f.fn_name, an, bn), vec![SOp::Op(call(f, 1))], vec![vec![a.clone()], vec![b.clone()]], None, false);
+                        }
+                        push(format!("{}:{}x2~{}", f.fn_name, an, an), vec![SOp::Op(call(f, 1))], vec![vec![a.clone(), a.clone()], vec![a.clone()]], None, false);
+                        push(format!("{}:{}~call", f.fn_name, an), vec![SOp::Op(call(f, 1))], vec![vec![a.clone()], vec![call(f, 2)]], None, false);
+                        if thorough {
+                            push(format!("{}:{}x3", f.fn_name, an), vec![SOp::Op(call(f, 1))], vec![vec![a.clone()], vec![a.clone()], vec![a.clone()]], None, false);
+                        }
+                    }
+                    push(format!("{}:undeclared~by_dep", f.fn_name), vec![SOp::Op(call(f, 1))], vec![vec![TOp::ByDep("zz".into())], vec![TOp::ByDep("d".into())]], None, false);
                 }
             }
         }
